@@ -81,3 +81,73 @@ M("C13", "state-best-block-from-updating", "ledger/protocol.py",
 M("C13", "uihb-pubkey-from-signer-path", "ledger/hsm2dongle_cmds/ui_heartbeat.py",
   '                "tweak": ui_hash.hex(),',
   '                "tweak": ui_hash.hex()[:64],')
+
+# ---- C05
+M("C05", "brothers-descending", "ledger/hsm2dongle.py",
+  "                                   key=lambda bh: bytes.fromhex(get_block_hash(bh))\n                                   ),",
+  "                                   key=lambda bh: bytes.fromhex(get_block_hash(bh)),\n                                   reverse=True),")
+M("C05", "brothers-not-sorted", "ledger/hsm2dongle.py",
+  "        brothers = list(map(lambda brolist:\n                            sorted(brolist,",
+  "        brothers = list(map(lambda brolist:\n                            sorted(brolist[:1], key=lambda bh: b'') + sorted(brolist[1:],")
+M("C05", "mm-size-leaves-btcblock", "ledger/block_utils.py",
+  "        remove_mm_fields_if_present(raw_block_hex, leave_btcblock=False, hex=False)",
+  "        remove_mm_fields_if_present(raw_block_hex, leave_btcblock=True, hex=False)")
+M("C05", "brother-meta-from-parent", "ledger/hsm2dongle.py",
+  "                        header_name=\"brother\",\n                        block=brother,",
+  "                        header_name=\"brother\",\n                        block=brother if brother_number < 3 else brother_list[0],")
+M("C05", "block-number-off-by-one", "ledger/hsm2dongle.py",
+  "                brother_list = brothers[block_number-1]",
+  "                brother_list = brothers[min(block_number, len(brothers)-1)]")
+M("C05", "partial-mapped-to-0", "ledger/protocol.py",
+  "            DERR.OK_PARTIAL: self.ERROR_CODE_OK_PARTIAL,",
+  "            DERR.OK_PARTIAL: self.ERROR_CODE_OK,")
+M("C05", "midstate-counter-ignored", "comm/pow.py",
+  "            bytes([0] * _MIDSTATE_PREFIX_SIZE)\n            + tx[:_MIDSTATE_SIZE_TRIMMED]",
+  "            bytes([0] * _MIDSTATE_PREFIX_SIZE)\n            + bytes(7) + tx[7:_MIDSTATE_SIZE_TRIMMED]")
+M("C05", "count-little-endian", "ledger/hsm2dongle.py",
+  'num_blocks_bytes = len(blocks).to_bytes(4, byteorder="big", signed=False)',
+  'num_blocks_bytes = len(blocks).to_bytes(4, byteorder="little", signed=False)')
+M("C05", "ancestor-strip-three-fields", "ledger/block_utils.py",
+  "        block_without_mm_fields = block[:-2] if leave_btcblock else block[:-3]",
+  "        block_without_mm_fields = block[:-3] if leave_btcblock else block[:-3]")
+M("C05", "hash-cb-not-reversed", "comm/pow.py",
+  "        coinbase_tx_hash = bytes(reversed(hashlib.sha256(hash_round1).digest())).hex()",
+  "        coinbase_tx_hash = hashlib.sha256(hash_round1).digest().hex()")
+M("C05", "continue-after-partial", "ledger/hsm2dongle.py",
+  "            if command == self.CMD.ADVANCE and response[1][self.OFF.OP] == ops.PARTIAL:\n                self.logger.info(\"%s: partial success\", operation_name.capitalize())\n                return (True, responses.OK_PARTIAL)",
+  "            if command == self.CMD.ADVANCE and response[1][self.OFF.OP] == ops.PARTIAL:\n                self.logger.info(\"%s: partial success\", operation_name.capitalize())\n                return (True, responses.OK_TOTAL if block_number == total_blocks else responses.OK_PARTIAL)")
+
+# ---- C04
+M("C04", "revert-fix-invalid-path", "ledger/hsm2dongle.py",
+  "                self.ERR.SIGN.DATA_SIZE,\n                self.ERR.SIGN.INVALID_PATH,\n",
+  "                self.ERR.SIGN.DATA_SIZE,\n")
+M("C04", "revert-fix-state-errorresult", "ledger/protocol.py",
+  "        except (HSM2DongleError, HSM2DongleErrorResult,\n                HSM2DongleTimeoutError) as e:\n            self.logger.error(\"Dongle error getting blockchain state: %s\", str(e))",
+  "        except (HSM2DongleError, HSM2DongleTimeoutError) as e:\n            self.logger.error(\"Dongle error getting blockchain state: %s\", str(e))")
+M("C04", "drop-code-from-tx-table", "ledger/hsm2dongle.py",
+  "                self.ERR.SIGN.TX_VERSION,\n",
+  "")
+M("C04", "unexpected-mapped-to-0", "ledger/protocol.py",
+  "                HSM2Dongle.RESPONSE.SIGN.ERROR_UNEXPECTED: self.ERROR_CODE_DEVICE,\n            }\n        ).get(error_code, self.ERROR_CODE_UNKNOWN)\n\n    def _blockchain_state",
+  "                HSM2Dongle.RESPONSE.SIGN.ERROR_UNEXPECTED: self.ERROR_CODE_OK,\n            }\n        ).get(error_code, self.ERROR_CODE_UNKNOWN)\n\n    def _blockchain_state")
+M("C04", "getpubkey-errorresult-uncaught", "ledger/protocol.py",
+  "        except HSM2DongleErrorResult:\n            return (self.ERROR_CODE_INVALID_KEYID,)\n        except HSM2DongleTimeoutError:\n            self.logger.error(\"Dongle timeout getting public key\")",
+  "        except HSM2DongleTimeoutError:\n            self.logger.error(\"Dongle timeout getting public key\")")
+M("C04", "user-range-edge-off-by-one", "ledger/hsm2dongle.py",
+  "return (code >= 0x69A0 and code <= 0x6BFF) or code == 0x6D00",
+  "return (code > 0x69A0 and code <= 0x6BFF) or code == 0x6D00")
+M("C04", "v1-unexpected-mapped-ok", "ledger/protocol_v1.py",
+  "                HSM2Dongle.RESPONSE.SIGN.ERROR_UNEXPECTED: self.ERROR_CODE_DEVICE,",
+  "                HSM2Dongle.RESPONSE.SIGN.ERROR_UNEXPECTED: self.ERROR_CODE_OK,")
+M("C04", "chain-mismatch-as-invalid-block", "ledger/hsm2dongle.py",
+  "                err.CHAIN_MISMATCH: response.ERROR_CHAINING_MISMATCH,\n                err.TOTAL_DIFF_OVERFLOW",
+  "                err.CHAIN_MISMATCH: response.ERROR_INVALID_BLOCK,\n                err.TOTAL_DIFF_OVERFLOW")
+M("C04", "tip-mismatch-dropped", "ledger/hsm2dongle.py",
+  "                err.ANCESTOR_TIP_MISMATCH: response.ERROR_TIP_MISMATCH,\n",
+  "")
+M("C04", "timeout-treated-as-ok-advance", "ledger/protocol.py",
+  "        except (HSM2DongleError, HSM2DongleTimeoutError) as e:\n            self.logger.error(\"Dongle error in advance blockchain: %s\", str(e))\n            return (self.ERROR_CODE_DEVICE,)",
+  "        except HSM2DongleTimeoutError as e:\n            return (self.ERROR_CODE_OK_PARTIAL, {})\n        except HSM2DongleError as e:\n            self.logger.error(\"Dongle error in advance blockchain: %s\", str(e))\n            return (self.ERROR_CODE_DEVICE,)")
+M("C04", "heartbeat-error-swallowed", "ledger/protocol.py",
+  "            heartbeat = self.hsm2dongle.get_signer_heartbeat(request[\"udValue\"])\n            # Treat any user-errors as a device (unexpected) error\n            if not heartbeat[0]:\n                return (self.ERROR_CODE_DEVICE,)",
+  "            heartbeat = self.hsm2dongle.get_signer_heartbeat(request[\"udValue\"])\n            # Treat any user-errors as a device (unexpected) error\n            if not heartbeat[0]:\n                return (self.ERROR_CODE_INVALID_AUTH,)")
